@@ -11,7 +11,8 @@ struct TermSink
 struct Term
 {
     virtual ~Term() {}
-    virtual void start(unsigned cap, unsigned hist, TermSink *sink) = 0; // init + init step (prints the prompt)
+    // init, then prompt / echo settings, then the init step (prints the prompt)
+    virtual void start(unsigned cap, unsigned hist, TermSink *sink, const char *prompt, bool echo) = 0;
     virtual void feed(int c) = 0;
     virtual long len() = 0;    // -1 when the implementation gives no public access
     virtual long cursor() = 0; // -1 when not accessible
